@@ -112,7 +112,7 @@ Theorem C03_cached : forall matches rules ecs up ckey maxttl,
   (co_cached o = true -> co_eff o = []) /\ length (co_eff o) <= 1 /\ (co_prefetch o = true -> co_cached o = true).
 Proof.
   intros matches rules ecs up ckey maxttl H1 Hinj clk evs t ts eps m client st o r.
-  assert (Hi : cinv ckey st) by (apply (crun_inv matches rules ecs up ckey maxttl H1 Hinj); apply cinv_init).
+  assert (Hi : cinv ecs up ckey st) by (apply (crun_inv matches rules ecs up ckey maxttl H1 Hinj); apply cinv_init).
   split; [apply (handle_c_header matches rules ecs up ckey maxttl)|].
   split; [apply (handle_c_question matches rules ecs up ckey maxttl H1 Hinj _ _ _ _ _ _ Hi)|].
   apply (handle_c_effects matches rules ecs up ckey maxttl H1 Hinj _ _ _ _ _ _ Hi).
